@@ -6,7 +6,8 @@ package props
 // Shim level (pure histories on the in-flight handler): k outstanding requests answered in every order (all k! for k<=5,
 // drawn permutations above), multi-page answers of 1..MaxPending pages interleaved across requests, spurious responses
 // for unknown ids, consumers reading afterwards. Socket level (worker-isolated): a library client against a raw server
-// peer that answers tagged requests in a generated order, interleaves EVENT envelopes (stream id -1) and spurious
+// peer that answers tagged requests in a generated order, interleaves EVENT envelopes (stream id -1, an unused id, or the
+// id of a request still awaiting its response) and spurious
 // responses, under every version incl. v5 segments, with concurrent senders.
 // Oracle: per request, the frames read from Incoming() are exactly the tagged frames addressed to it, in arrival order,
 // the channel is closed after the last one with Err()==nil; events appear on the event channel / handlers in order and
@@ -18,6 +19,7 @@ import (
 	"encoding/json"
 	"fmt"
 	"net"
+	"os"
 	"strings"
 	"sync"
 	"testing"
@@ -249,7 +251,7 @@ type c10Spec struct {
 	Compression string
 	K           int
 	Senders     int   // concurrent sender goroutines
-	Order       []int // answer order (indices of requests); -1 = EVENT, -2 = spurious response
+	Order       []int // answer order (indices of requests); -1 = EVENT (stream id -1), -2 = spurious response, -3 = EVENT carrying the stream id of a request still awaiting a response, -4 = EVENT with an unused stream id
 	PagesPer    []int // pages per request (DSE versions only may be > 1)
 	Batch       bool  // v5: all responses in as few segments as possible
 	MaxPending  int
@@ -269,7 +271,7 @@ func c10Session(args []string, _ []byte) string {
 	defer ln.Close()
 	nEvents := 0
 	for _, o := range spec.Order {
-		if o == -1 {
+		if o == -1 || o == -3 || o == -4 {
 			nEvents++
 		}
 	}
@@ -334,9 +336,22 @@ func c10Session(args []string, _ []byte) string {
 		for _, o := range spec.Order {
 			var f *frame.Frame
 			switch {
-			case o == -1:
+			case o == -1 || o == -3 || o == -4:
+				// an EVENT is recognised by its opcode; whatever stream id it carries it belongs on the event channel
 				evNo++
-				f = frame.NewFrame(v, -1, &message.StatusChangeEvent{ChangeType: primitive.StatusChangeTypeUp, Address: &primitive.Inet{Addr: net.IPv4(10, 0, 0, byte(evNo)), Port: int32(evNo)}})
+				id := int16(-1)
+				if o == -4 {
+					id = -2
+				} else if o == -3 {
+					id = 99
+					for j := 0; j < spec.K; j++ {
+						if sent[j] < spec.PagesPer[j] {
+							id = streamOf[j]
+							break
+						}
+					}
+				}
+				f = frame.NewFrame(v, id, &message.StatusChangeEvent{ChangeType: primitive.StatusChangeTypeUp, Address: &primitive.Inet{Addr: net.IPv4(10, 0, 0, byte(evNo)), Port: int32(evNo)}})
 			case o == -2:
 				unused := int16(30000)
 				f = taggedFinal(v, unused, "spurious")
@@ -531,13 +546,16 @@ func c10Socket(rt *rapid.T) {
 		}
 	}
 	for e := rapid.IntRange(0, 3).Draw(rt, "events"); e > 0; e-- {
-		pool = append(pool, -1)
+		pool = append(pool, rapid.SampledFrom([]int{-1, -1, -3, -4}).Draw(rt, "eventStreamId"))
 	}
 	for s := rapid.IntRange(0, 2).Draw(rt, "spurious"); s > 0; s-- {
 		pool = append(pool, -2)
 	}
 	spec.Order = rapid.Permutation(pool).Draw(rt, "order")
 	sj, _ := json.Marshal(spec)
+	if os.Getenv("VERIF_TRACE") != "" {
+		fmt.Fprintf(os.Stderr, "TRACE %s c10session %s\n", time.Now().Format("15:04:05"), sj)
+	}
 	verdict := isolated("c10session", []string{string(sj)}, nil)
 	if strings.HasPrefix(verdict, "FAIL:") {
 		rt.Fatalf("%s\nspec %s", verdict, sj)
